@@ -116,7 +116,7 @@ def r1_writers(rep, ctx):
             owner_ok = fn.cls == "UnitDatabase" and fn.name in WRITERS and fn.is_method
             rep.check(owner_ok, "C14.R1", key, "registry field %s is written by the registration method %s" % (field, fn.name),
                       "registry field %s (depth %d) is mutated by %s, which is not a registration method" % (field, depth, fn.qual), node=node, fn=fn)
-    rep.floor("C14.R1", "registry mutation sites", n_sites, 8)
+    rep.floor("C14.R1", "registry mutation sites", n_sites, 4)
 
 
 def _stmt_of(cfg, node):
@@ -160,7 +160,7 @@ def r2_check_before_write(rep, ctx):
                 lines = [getattr(cfg.ast[x], "lineno", "?") for x in raisers]
                 rep.bad("C14.R2", key, "a rejected call can leave the registry changed: the write to %s can be followed by the raise/assert at line(s) %s" % (what, lines),
                         node=node, fn=fn, facts={"entry": fn.qual, "offending_exit_lines": lines})
-    rep.floor("C14.R2", "write sites in registration methods", total, 6)
+    rep.floor("C14.R2", "write sites in registration methods", total, 3)
 
 
 def _exception_reason(cfg, fn, res, nid, node, raisers):
